@@ -306,6 +306,8 @@ def examine(case):
 def examine_sampled(case):
     """Larger values: structural validity of seeded random results (multiset + block structure)."""
     q, ast, doc = case["q"], case["ast"], case["doc"]
+    if case.get("alias"):
+        doc = V.alias(doc, case["alias"])
     env = nd_env()
     det = [l for l, _ in ev.find(ast, doc)]
     state = _random.getstate()
@@ -513,8 +515,12 @@ def run_shard(spec, shard):
             doc = [core] + pad if k == 0 else pad + [core] if k == 1 else pad[: len(pad) // 2] + [core] + pad[len(pad) // 2:]
         ast, text = gen_query(r, shard, doc, nseg_max=r.choice([1, 1, 2, 3]))
         case = {"kind": "sampled", "q": text, "ast": ast, "doc": doc, "seeds": [r.randrange(10**9) for _ in range(6)]}
-        shard.case(key=(text, doc, "sampled"), nontrivial="descendant" in Q.features(ast) or "wild" in Q.features(ast),
-                   classes={"sampled"}, sample=None)
+        shared = r.random() < 0.2
+        if shared:
+            # the same sub-object referenced from several places (a DAG, not a cycle): every reference is a node
+            case["alias"] = r.randrange(1, 2**31)
+        shard.case(key=(text, doc, "sampled", case.get("alias")), nontrivial="descendant" in Q.features(ast) or "wild" in Q.features(ast),
+                   classes={"sampled"} | ({"sampled:shared-sub-objects"} if shared else set()), sample=None)
         f = examine(case)
         if f:
             shard.fail(f["bucket"], case, f)
